@@ -1,46 +1,26 @@
-use std::collections::HashSet;
-
-use vx_core::explore::*;
-use vx_core::program::*;
-
 fn main() {
     let args: Vec<String> = std::env::args().collect();
-    let bound: u32 = args.get(1).map(|s| s.parse().unwrap()).unwrap_or(2);
-    let cancelable = args.get(2).map(|s| s == "c").unwrap_or(false);
-    init_process(cancelable);
-    let prog = Program::new("S1")
-        .worker(
-            "A",
-            vec![
-                Op::Root { slot: 0, name: "r".into(), trace: U128(1), remote_parent: 0, sampled: true, props: vec![] },
-                Op::Finish { slot: 0 },
-            ],
-        )
-        .collector(2, false, 0);
-    let mut states = HashSet::new();
-    let t0 = std::time::Instant::now();
-    let mut lost = 0;
-    let mut outcomes = std::collections::HashMap::new();
-    let st = explore(
-        &prog,
-        &ExploreCfg { bound: Some(bound), max_execs: 1_000_000, deadline: None },
-        vec![],
-        &mut states,
-        |ex| {
-            let n: usize = ex.batches.iter().map(|b| b.records.len()).sum();
-            *outcomes.entry((n, format!("{:?}", ex.outcome), ex.stats_final)).or_insert(0u64) += 1;
-            if n != 1 {
-                lost += 1;
-                if lost == 1 {
-                    println!("first loss: choices {:?}", ex.choices);
-                    for (a, p) in &ex.steps {
-                        println!("  {} {}", a, p.tag());
-                    }
+    let code = match args.get(1).map(|s| s.as_str()) {
+        Some("worker") => {
+            vx_core::check::worker_main();
+            0
+        }
+        Some("check") => {
+            let prop = args.get(2).expect("property id");
+            let tier = args.get(3).map(|s| s.as_str()).unwrap_or("quick");
+            match vx_core::plans::plan(prop, tier) {
+                Some(spec) => vx_core::check::run_check(spec),
+                None => {
+                    eprintln!("no plan for {prop}");
+                    2
                 }
             }
-            true
-        },
-    );
-    println!("{st:?} states={} lost={lost} wall={:?}", states.len(), t0.elapsed());
-    println!("{outcomes:?}");
+        }
+        Some("replay") => vx_core::check::replay_main(args.get(2).expect("replay file")),
+        _ => {
+            eprintln!("usage: vx-sched check <ID> <quick|thorough> | replay <file> | worker");
+            2
+        }
+    };
+    std::process::exit(code);
 }
